@@ -361,7 +361,9 @@ def run(chk) -> None:
         for parallel in (False, True):
             for storage in (("memory", "tempfile") if cmd == "dry" or not quick else ("memory",)):
                 sjobs.append({"cmd": cmd, "parallel": parallel, "storage": storage, "n": 18,
-                              "cross": [[1, 2], [3, 18]], "seeds": seeds if not parallel else seeds[:1],
+                              # groups of three and four files: a finding then lists several OTHER locations, whose
+                              # order in the message must not depend on the hash seed either
+                              "cross": [[1, 2, 9], [3, 18, 7, 12]], "seeds": seeds if not parallel else seeds[:1],
                               "root": str(scratch_root() / f"c08s-{len(sjobs)}" / "proj")})
     res = pool.run_jobs(job_side, sjobs, nproc=max(2, NCPU // 2), timeout=900)
     for job, r_ in zip(sjobs, res):
